@@ -482,14 +482,17 @@ class FlatSet : private Compare {
     return insert(std::forward<V>(v)).first;
   }
 
-  static bool value_equi(const_reference v1, const_reference v2) {
-    return !value_compare()(v1, v2) && !value_compare()(v2, v1);
-  }
+  /// Equivalence of two values under the comparator object of this set (which may hold a state)
+  struct ValueEqui {
+    bool operator()(const_reference v1, const_reference v2) const { return !_comp(v1, v2) && !_comp(v2, v1); }
+
+    const Compare &_comp;
+  };
 
   Compare &compRef() { return static_cast<Compare &>(*this); }
   const Compare &compRef() const { return static_cast<const Compare &>(*this); }
 
-  void eraseDuplicates() { _sortedVector.erase(std::unique(mbegin(), mend(), value_equi), end()); }
+  void eraseDuplicates() { _sortedVector.erase(std::unique(mbegin(), mend(), ValueEqui{compRef()}), end()); }
 
   VecType _sortedVector;
 };
